@@ -368,15 +368,23 @@ async fn bucket_entries_async(bucket: &Path) -> std::io::Result<Vec<Serializable
     let mut lines =
         crate::async_lib::lines_to_stream(crate::async_lib::BufReader::new(file).lines());
     while let Some(line) = lines.next().await {
-        if let Ok(entry) = line {
-            let entry_str = match entry.split('\t').collect::<Vec<&str>>()[..] {
-                [hash, entry_str] if hash_entry(entry_str) == hash => entry_str,
-                // Something's wrong with the entry. Abort.
-                _ => continue,
-            };
-            if let Ok(serialized) = serde_json::from_str::<SerializableMetadata>(entry_str) {
-                vec.push(serialized);
-            }
+        let entry = match line {
+            Ok(entry) => entry,
+            // A line that is not valid UTF-8 is just another damaged entry:
+            // skip it and keep reading the entries that follow it.
+            Err(err) if err.kind() == ErrorKind::InvalidData => continue,
+            // A real read error must not be mistaken for a missing entry, and
+            // a stream that keeps failing (e.g. the bucket path is a
+            // directory) must not be polled forever.
+            Err(err) => return Err(err),
+        };
+        let entry_str = match entry.split('\t').collect::<Vec<&str>>()[..] {
+            [hash, entry_str] if hash_entry(entry_str) == hash => entry_str,
+            // Something's wrong with the entry. Abort.
+            _ => continue,
+        };
+        if let Ok(serialized) = serde_json::from_str::<SerializableMetadata>(entry_str) {
+            vec.push(serialized);
         }
     }
     Ok(vec)
